@@ -433,7 +433,7 @@ def r16_7(run):
     ix = run.index
     f = ix.func("pandapipes.create._set_multiple_entries")
     run.analysed(f)
-    inner = [n for n in f.node.body if isinstance(n, ast.FunctionDef)]
+    inner = [n for n in f.raw_node.body if isinstance(n, ast.FunctionDef)]      # the tree as written (flattening substitutes it)
     if len(inner) != 1:
         raise AnalysisError("_set_multiple_entries no longer has one local entry filter")
     from ..index import FunctionInfo
